@@ -47,7 +47,13 @@ func fixedHistories() map[string][]fixedVersion {
 		return fixedVersion{"a.go": "package p\n\nfunc f(m map[" + kt + "]bool) int {\n\treturn len(deriveSet(deriveKeys(m))) + len(deriveKeysAgain(m))\n}\n",
 			"a_test.go": "package p\n\nfunc g(m map[" + kt + "]bool) int { return len(deriveKeysInTest(m)) }\n"}
 	}
+	// the user's files sort behind derived.gen.go and the package is renamed: the old derived.gen.go (and every
+	// remnant of it that is cut off inside the name of its package clause) is a file of another package
+	renamed := func(pname, kt, file string) fixedVersion {
+		return fixedVersion{file: "package " + pname + "\n\ntype T struct{ A map[" + kt + "]bool }\n\nfunc eq(a, b *T) bool { return deriveEqual(a, b) }\n\nfunc ks(t *T) int { return len(deriveSet(deriveKeys(t.A))) }\n"}
+	}
 	return map[string][]fixedVersion{
+		"package-renamed": {renamed("tool", "string", "main.go"), renamed("kit", "string", "main.go"), renamed("kit", "int", "types.go"), renamed("toolkit", "int", "types.go")},
 		"calls-in-test-file": {
 			inTest("func keys(m map[string]int) int { return len(deriveSet(deriveKeys(m))) }\n", "func eqT(a, b *T) bool { return deriveEqual(a, b) }\n"),
 			inTest("func keys(m map[int]int) int { return len(deriveSet(deriveKeys(m))) }\n", "func eqT(a, b *T) bool { return deriveEqual(a, b) }\n"),
@@ -59,7 +65,7 @@ func fixedHistories() map[string][]fixedVersion {
 		},
 		"autoname-renames": {ledger("string"), ledger("int"), ledger("string")},
 		"dedup-renames":    {twice("string"), twice("int")},
-		"deep-chain": {deep("string"), deep("int"), deep("string")},
+		"deep-chain":       {deep("string"), deep("int"), deep("string")},
 		"external-test-package": {
 			withExt("type T struct{ A int }\n\nfunc eq(a, b *T) bool { return deriveEqual(a, b) }\n"),
 			withExt("type T struct {\n\tA int\n\tB []string\n}\n\nfunc eq(a, b *T) bool { return deriveEqual(a, b) }\n"),
@@ -76,10 +82,10 @@ func fixedHistories() map[string][]fixedVersion {
 }
 
 func runFixed(cfg hx.Config, meta *hx.Meta) {
-	names := []string{"deep-chain", "external-test-package", "several-files", "calls-in-test-file", "autoname-renames", "dedup-renames"}
+	names := []string{"package-renamed", "deep-chain", "external-test-package", "several-files", "calls-in-test-file", "autoname-renames", "dedup-renames"}
 	flagsOf := map[string][]string{"autoname-renames": {"-autoname"}, "dedup-renames": {"-dedup"}}
 	hs := fixedHistories()
-	hx.Parallel(len(names), 6, func(hi int) {
+	hx.Parallel(len(names), 7, func(hi int) {
 		name := names[hi]
 		vers := hs[name]
 		args := append(append([]string{}, flagsOf[name]...), ".")
@@ -133,7 +139,7 @@ func runFixed(cfg hx.Config, meta *hx.Meta) {
 			}
 			olds := []oldT{{prev, prevExists}}
 			if prevExists {
-				for _, k := range []int{0, len(prev) / 2} {
+				for _, k := range []int{0, 53, 54, len(prev) / 2} {
 					if k >= 0 && k < len(prev) {
 						olds = append(olds, oldT{prev[:k], true})
 					}
